@@ -182,6 +182,8 @@ def base_text(rng, max_lines=40):
         return rng.choice(failing())
     if r < 0.68:
         return gen_block(rng, rng.randint(3, max_lines))
+    if r < 0.85:
+        return gen_program(rng, rng.randint(3, max_lines))
     return window(rng, max_lines)
 
 
@@ -314,3 +316,145 @@ def _edit_once(rng, lines, history):
         j = rng.randrange(n)
         lines[i], lines[j] = lines[j], lines[i]
     return lines
+
+
+# ---------------------------------------------------------------------------
+# structured programs: mostly valid, block-structured code (where the diff parser copies most)
+# ---------------------------------------------------------------------------
+_SIMPLE = ['x%d = %d', 'return x%d', 'pass', 'foo(%d, y)', 'yield x%d', 'import mod%d', 'log(rows%d)',
+           'rows = await db.fetch(%d)', 'self.a%d = b', 'assert x%d, "m"', 'del d%d', 'raise E%d()',
+           'x = [%d,\n%s    2]', "s = f'{a%d}'", "s = \'\'\'doc %d\n%s  text\'\'\'", '# comment %d',
+           'x: int = %d', 'a, b = b, a  # %d', 'print(x%d)', 'continue', 'break', 'global g%d',
+           'x = (y%d\n%s     + z)', 'lambda: %d']
+
+
+def _simple(rng, pad):
+    t = rng.choice(_SIMPLE)
+    n = rng.randrange(10)
+    if t.count('%') == 2:
+        return pad + (t % (n, pad)) + '\n'
+    if '%d' in t:
+        return pad + (t % n) + '\n'
+    return pad + t + '\n'
+
+
+def gen_program(rng, budget=30, width=4):
+    """Well-formed nested program; returns text.  Form-feed page breaks and decorators included."""
+    out = []
+
+    def body(ind, depth, in_async):
+        n = rng.randint(1, 4)
+        for _ in range(n):
+            if len(out) >= budget:
+                break
+            item(ind, depth, in_async)
+        if not out or not out[-1].startswith(' ' * (ind * width)) or not out[-1].strip():
+            out.append(' ' * (ind * width) + 'pass\n')
+
+    def item(ind, depth, in_async):
+        pad = ' ' * (ind * width)
+        r = rng.random()
+        if depth >= 3 or r < 0.45:
+            out.append(_simple(rng, pad))
+            return
+        kind = rng.choice(['def', 'def', 'adef', 'adef', 'class', 'if', 'for', 'while', 'try', 'with', 'ifelse'])
+        if kind in ('def', 'adef', 'class'):
+            for _ in range(rng.choice([0, 0, 1, 1, 2])):
+                out.append(pad + rng.choice(['@dec%d', '@mod.dec(%d)', '@property  # %d', '@staticmethod  # %d'])
+                           % rng.randrange(9) + '\n')
+        n = rng.randrange(10)
+        if kind == 'def':
+            out.append(pad + 'def f%d(self, a=%d):\n' % (n, n))
+            body(ind + 1, depth + 1, False)
+        elif kind == 'adef':
+            out.append(pad + 'async def g%d(self):\n' % n)
+            body(ind + 1, depth + 1, True)
+        elif kind == 'class':
+            out.append(pad + 'class C%d(Base):\n' % n)
+            body(ind + 1, depth + 1, False)
+        elif kind == 'if':
+            out.append(pad + 'if x%d:\n' % n)
+            body(ind + 1, depth + 1, in_async)
+        elif kind == 'ifelse':
+            out.append(pad + 'if x%d:\n' % n)
+            body(ind + 1, depth + 1, in_async)
+            out.append(pad + rng.choice(['else:\n', 'elif y%d:\n' % n]))
+            body(ind + 1, depth + 1, in_async)
+        elif kind == 'for':
+            out.append(pad + ('async ' if in_async and rng.random() < 0.5 else '') + 'for i in range(%d):\n' % n)
+            body(ind + 1, depth + 1, in_async)
+        elif kind == 'while':
+            out.append(pad + 'while x%d:\n' % n)
+            body(ind + 1, depth + 1, in_async)
+        elif kind == 'try':
+            out.append(pad + 'try:\n')
+            body(ind + 1, depth + 1, in_async)
+            out.append(pad + rng.choice(['except E%d as e:\n' % n, 'finally:\n', 'except:\n']))
+            body(ind + 1, depth + 1, in_async)
+        elif kind == 'with':
+            out.append(pad + ('async ' if in_async and rng.random() < 0.5 else '') + 'with open(f%d) as f:\n' % n)
+            body(ind + 1, depth + 1, in_async)
+        if ind == 0 and rng.random() < 0.5:
+            out.append(rng.choice(['\n', '\n\n', '\x0c\n', '\n# section\n']))
+
+    while len(out) < budget:
+        item(0, 0, False)
+        if rng.random() < 0.25:
+            break
+    return ''.join(out)
+
+
+def edit_structured(rng, text, history=()):
+    """Local, mostly syntax-preserving edits (append to a body, insert a block, rename, blank lines...)."""
+    lines = splitlines(text)
+    for _ in range(rng.choice([1, 1, 1, 2, 3])):
+        n = len(lines)
+        if n == 0:
+            return gen_program(rng, 8)
+        i = rng.randrange(n)
+        ln = lines[i]
+        pad = ln[:len(ln) - len(ln.lstrip(' \t\x0c'))]
+        r = rng.random()
+        if r < 0.22:                                   # append a statement after line i at its indentation
+            lines[i + 1:i + 1] = splitlines(_simple(rng, pad))
+        elif r < 0.30:                                 # ... one level deeper / shallower
+            d = rng.choice(['    ', '  ', ''])
+            newpad = pad + d if rng.random() < 0.5 else pad[:-4]
+            lines[i + 1:i + 1] = splitlines(_simple(rng, newpad))
+        elif r < 0.40:                                 # insert a whole block at this indentation
+            blk = splitlines(gen_program(rng, rng.randint(2, 6)))
+            lines[i + 1:i + 1] = [pad + x if x.strip() else x for x in blk]
+        elif r < 0.52:                                 # delete the line (or a few)
+            del lines[i:i + rng.choice([1, 1, 1, 2, 3])]
+        elif r < 0.62:                                 # blank line / comment line / page break
+            lines[i:i] = [rng.choice(['\n', '\n', pad + '\n', pad + '# c\n', '\x0c\n', '    \n'])]
+        elif r < 0.72:                                 # change one digit / identifier character
+            if ln.strip():
+                cols = [k for k, ch in enumerate(ln) if ch.isalnum()]
+                if cols:
+                    k = rng.choice(cols)
+                    lines[i] = ln[:k] + rng.choice('0123456789xyz_') + ln[k + 1:]
+        elif r < 0.80:                                 # whitespace of the indentation: form feed, tab, +-1 blank
+            if pad:
+                k = rng.randrange(len(pad))
+                c = rng.random()
+                if c < 0.4:
+                    newpad = pad[:k] + '\x0c' + pad[k + 1:]
+                elif c < 0.55:
+                    newpad = pad[:k] + '\t' + pad[k + 1:]
+                elif c < 0.8:
+                    newpad = pad[:-1]
+                else:
+                    newpad = pad + ' '
+                lines[i] = newpad + ln[len(pad):]
+            else:
+                lines[i] = rng.choice([' ', '\x0c', '\t']) + ln
+        elif r < 0.86:                                 # move a line
+            j = rng.randrange(n)
+            x = lines.pop(i)
+            lines.insert(min(j, len(lines)), x)
+        elif r < 0.92 and history:                     # undo
+            lines = splitlines(rng.choice(list(history)))
+        else:                                          # fall back to the rough operators
+            lines = _edit_once(rng, lines, history)
+    return ''.join(lines)
